@@ -1554,12 +1554,27 @@ impl Exec {
                     Ok(b) => ok(json!(b)),
                     Err(e) => er(e),
                 };
+                // compact() ends when a pass moves nothing: called again at once it has nothing to do (Compact.tla: the end
+                // state is a fixpoint)
+                let (len1, syncs1) = (self.store.len(), self.store.syncs());
+                let again = if r.get("ok").is_some() {
+                    Some(match self.db.as_mut().unwrap().compact() {
+                        Ok(b) => ok(json!(b)),
+                        Err(e) => er(e),
+                    })
+                } else {
+                    None
+                };
                 done.store(true, std::sync::atomic::Ordering::Release);
                 let _ = watchdog.join();
                 let mut evs = Self::with_r(op, r);
                 evs[0]["len0"] = json!(len0);
-                evs[0]["len1"] = json!(self.store.len());
-                evs[0]["syncs"] = json!(self.store.syncs() - syncs0);
+                evs[0]["len1"] = json!(len1);
+                if let Some(a) = again {
+                    evs[0]["again"] = a;
+                    evs[0]["len2"] = json!(self.store.len());
+                }
+                evs[0]["syncs"] = json!(syncs1 - syncs0);
                 evs[0]["pages0"] = json!(len0 / self.cfg.page_size);
                 evs
             }
